@@ -57,6 +57,7 @@ func runC03(r *an.Run) {
 	// the '+' lines that reach the parser are the bytes of the patch: the text kept per line is not a
 	// window into a reader's buffer that later reads overwrite
 	noTransientBufferRetained(r, "R12-kept-text-is-not-a-window-into-a-read-buffer")
+	bothSidesSeeTheSameDeclarations(r, "R13-both-sides-read-names-by-the-same-declarations")
 }
 
 func c03Siblings(r *an.Run) {
@@ -95,12 +96,8 @@ func c03Siblings(r *an.Run) {
 	// isDots predicates: closures passed to compileSliceDots, per slice type
 	dots := func(f *ssa.Function) map[string][]string {
 		out := map[string][]string{}
-		for _, c := range an.EqCases(f, isCallOnParam(rvType, "v")) {
-			g := an.GlobalLoaded(c.Key)
-			if g == nil {
-				continue
-			}
-			for _, in := range an.FollowJumps(c.Target).Instrs {
+		for _, arm := range typeArmsOf(r, f, gt) {
+			for _, in := range arm.instrs() {
 				call, ok := in.(*ssa.Call)
 				if !ok || !strings.HasSuffix(an.CalleeName(call), "compileSliceDots") {
 					continue
@@ -121,7 +118,7 @@ func c03Siblings(r *an.Run) {
 					clo, _ = v.Fn.(*ssa.Function)
 				}
 				if clo != nil {
-					out[gt[g.Name()]] = fingerprint(clo)
+					out[arm.typ] = fingerprint(clo)
 				}
 			}
 		}
